@@ -576,11 +576,14 @@ func (idx *HNSWIndex) searchLayer(query []float32, entryPoint uint32, ef int, la
 	result := newMaxHeap()
 	defer putMaxHeap(result) // Return to pool when done
 
-	// Check entry point BEFORE adding to candidates
-	if !idx.deletedNodes.Contains(entryPoint) {
-		d := idx.distance.Calculate(query, idx.nodes[entryPoint].Vector())
+	// A soft-deleted entry point is still traversed (so that its live
+	// neighbors stay reachable) but is never reported as a result
+	if epNode := idx.nodes[entryPoint]; epNode != nil {
+		d := idx.distance.Calculate(query, epNode.Vector())
 		heap.Push(candidates, candidate{id: entryPoint, distance: d})
-		heap.Push(result, candidate{id: entryPoint, distance: d})
+		if !idx.deletedNodes.Contains(entryPoint) {
+			heap.Push(result, candidate{id: entryPoint, distance: d})
+		}
 	}
 	visited.Add(entryPoint)
 
@@ -596,11 +599,6 @@ func (idx *HNSWIndex) searchLayer(query []float32, entryPoint uint32, ef int, la
 		node := idx.nodes[current.id]
 		if layer < len(node.Edges) {
 			for _, neighborID := range node.Edges[layer] {
-				// SOFT DELETE CHECK: Skip deleted neighbors
-				if idx.deletedNodes.Contains(neighborID) {
-					continue
-				}
-
 				if !visited.Contains(neighborID) {
 					visited.Add(neighborID)
 
@@ -608,10 +606,14 @@ func (idx *HNSWIndex) searchLayer(query []float32, entryPoint uint32, ef int, la
 
 					if result.Len() < ef || d < (*result)[0].distance {
 						heap.Push(candidates, candidate{id: neighborID, distance: d})
-						heap.Push(result, candidate{id: neighborID, distance: d})
 
-						if result.Len() > ef {
-							heap.Pop(result)
+						// SOFT DELETE CHECK: deleted neighbors are explored, not returned
+						if !idx.deletedNodes.Contains(neighborID) {
+							heap.Push(result, candidate{id: neighborID, distance: d})
+
+							if result.Len() > ef {
+								heap.Pop(result)
+							}
 						}
 					}
 				}
